@@ -1,5 +1,7 @@
 -------------------------------- MODULE MCAS --------------------------------
 EXTENDS ASExchange
 \* every credential kind: password (a key for every etype), keytabs with one or two keys; with and without the AssumePreAuthentication option
-MCCreds == [password : {TRUE}, keyEts : {Etypes}, assumeInit : BOOLEAN] \cup [password : {FALSE}, keyEts : {{18}, {17, 23}}, assumeInit : BOOLEAN]
+\* and two orders of the etypes the requests offer
+Tkts == {<<18, 17, 23>>, <<23, 18>>}
+MCCreds == [password : {TRUE}, keyEts : {Etypes}, assumeInit : BOOLEAN, tkt : Tkts] \cup [password : {FALSE}, keyEts : {{18}, {17, 23}}, assumeInit : BOOLEAN, tkt : Tkts]
 =============================================================================
